@@ -3,7 +3,7 @@
    renders untouched (keeps_own: proved for the renderer itself, chain_exec_node), for ANY scope and
    ANY initial condition table. Chain elements carry the condition as their only directive (plus any
    plain attributes, any children); text / comments / CDATA between them are the gaps. *)
-From Tpl Require Import Html.Exec Proofs.ExecSpec Proofs.ChainProps.
+From Tpl Require Import Html.Exec Proofs.ExecSpec Proofs.ChainProps Proofs.ChainWith.
 Open Scope N_scope.
 
 Section C03.
@@ -78,6 +78,54 @@ Theorem else_without_chain : forall ctx gs e post more sc top t st,
   exec_list ebody ctx (ce_node e :: more) sc top t st = ([], RErr RSyntax, t, st).
 Proof. intros; eapply ChainProps.else_without_chain; eassumption. Qed.
 End C03.
+
+(* ---- chain elements that also carry a with directive ("apart from its with bindings, which precede the condition").
+   [celemw] = a chain element with an optional with attribute, written before or after the condition; the bindings are
+   evaluated first, the condition in the scope they extend, and every element starts again from the chain's scope.
+   Selected element ek: rendered by the nested call in ITS extended scope; the with-bindings (only) of the LATER elements are
+   still evaluated (withs_ok), their conditions and everything else are not. *)
+Theorem chainw_first_true : forall is_space to_lower is_letter is_udigit methods call_fn mgr
+    (exec : N -> list node -> node -> scope -> bool -> tbl -> rst -> R)
+    ctx pre e1 rest post sc t st front ek back lg1 sck lgw s lg2 o t2 st2 lg3,
+  chain_inw to_lower mgr exec ctx pre e1 rest post ->
+  WElem e1 :: rest = front ++ WElem ek :: back ->
+  conds_falsew is_space is_letter is_udigit methods call_fn mgr front sc (r_log st) = Some lg1 ->
+  pre_with is_space is_letter is_udigit methods call_fn mgr (cw_with ek) sc lg1 = (inl sck, lgw) ->
+  attr_evaluate is_letter is_udigit methods call_fn mgr (cw_attr ek) sck lgw = (AOk s, lg2) ->
+  str_eqb s s_true = true ->
+  exec (N.lor 0 1) ctx (cw_node ek) sck false (tbl_set (set_elemsw false front t) (cw_id ek) true) (set_log st lg2) = (o, ROk, t2, st2) ->
+  withs_ok is_space is_letter is_udigit methods call_fn mgr back sc (r_log st2) = Some lg3 ->
+  exec_list (exec_body is_space to_lower is_letter is_udigit methods call_fn mgr exec) ctx (cw_node e1 :: map itemw_node rest) sc false t st
+    = (gaps_textw is_space front ++ o ++ gaps_textw is_space back, ROk, set_elemsw true back t2, set_log st2 lg3).
+Proof. exact ChainWith.chainw_first_true. Qed.
+(* a failing with-binding stops the chain with that error before the element's condition is evaluated *)
+Theorem chainw_with_fails : forall is_space to_lower is_letter is_udigit methods call_fn mgr
+    (exec : N -> list node -> node -> scope -> bool -> tbl -> rst -> R)
+    ctx pre e1 rest post sc t st front ek back lg1 x lg2,
+  chain_inw to_lower mgr exec ctx pre e1 rest post ->
+  WElem e1 :: rest = front ++ WElem ek :: back ->
+  conds_falsew is_space is_letter is_udigit methods call_fn mgr front sc (r_log st) = Some lg1 ->
+  pre_with is_space is_letter is_udigit methods call_fn mgr (cw_with ek) sc lg1 = (inr x, lg2) ->
+  exec_list (exec_body is_space to_lower is_letter is_udigit methods call_fn mgr exec) ctx (cw_node e1 :: map itemw_node rest) sc false t st
+    = (gaps_textw is_space front, x, set_elemsw false front t, set_log st lg2).
+Proof. exact ChainWith.chainw_with_fails. Qed.
+(* after the selected element the rest of the chain evaluates with-bindings only: the log grows exactly by them *)
+Theorem chainw_after_selected : forall is_space to_lower is_letter is_udigit methods call_fn mgr
+    (exec : N -> list node -> node -> scope -> bool -> tbl -> rst -> R) ctx sc top items pre prev gs post t st,
+  ctx = pre ++ prev :: gs ++ map itemw_node items ++ post ->
+  NoDup (map n_id ctx) -> is_tag_node prev = true -> Forall is_gap gs -> Forall (item_okw to_lower mgr) items ->
+  tbl_get t (n_id prev) = Some true ->
+  exec_list (exec_body is_space to_lower is_letter is_udigit methods call_fn mgr exec) ctx (map itemw_node items) sc top t st
+    = inertw is_space is_letter is_udigit methods call_fn mgr items sc top t st /\
+  (forall o r t' st', inertw is_space is_letter is_udigit methods call_fn mgr items sc top t st = (o, r, t', st') ->
+     exists front back, items = front ++ back /\
+       r_log st' = withs_log is_space is_letter is_udigit methods call_fn mgr front sc (r_log st)).
+Proof. exact ChainWith.chainw_after_selected. Qed.
+Print Assumptions chainw_first_true.
+Print Assumptions chainw_with_fails.
+Print Assumptions chainw_after_selected.
+(* non-vacuity: ChainWithExp.v (v_by_theorem: a 3-element chain with recording functions; exp_* : the five experiments) *)
+
 
 (* the renderer itself satisfies the assumption on nested renders: the chain theorem at every fuel *)
 Theorem chain_exec_node : forall is_space to_lower is_letter is_udigit methods call_fn mgr f ctx pre e1 rest post sc top t st,
